@@ -772,6 +772,35 @@ fn kf_xlsb_attr_choose_has_a_variable_jump_table() {
     assert_eq!(f.get_value((2, 3)), Some(&"CHOOSE(2,10,20)".to_string()));
 }
 
+// C04 / ods::get_range
+
+fn ods_with_rows(rows: &str) -> Vec<u8> {
+    let src = fixture("date.ods");
+    let content = String::from_utf8(member(&src, "content.xml")).unwrap();
+    let cut = content.find("<table:table-row").expect("row");
+    let tail = content.find("</table:table>").unwrap();
+    rezip(&src, &[("content.xml", format!("{}{}{}", &content[..cut], rows, &content[tail..]).into_bytes())])
+}
+
+#[test]
+fn kf_ods_interior_empty_row_when_first_column_is_not_a() {
+    // B1 = x, row 2 empty, B3 = y, C3 = z : the used rectangle is B1:C3
+    let s = |t: &str| format!(r#"<table:table-cell office:value-type="string"><text:p>{t}</text:p></table:table-cell>"#);
+    let rows = format!(
+        "<table:table-row><table:table-cell/>{}</table:table-row><table:table-row><table:table-cell table:number-columns-repeated=\"3\"/></table:table-row><table:table-row><table:table-cell/>{}{}</table:table-row>",
+        s("x"), s("y"), s("z")
+    );
+    let mut wb: Ods<_> = Ods::new(Cursor::new(ods_with_rows(&rows))).unwrap();
+    let name = wb.sheet_names()[0].clone();
+    let r = wb.worksheet_range(&name).unwrap();
+    assert_eq!((r.start(), r.end()), (Some((0, 1)), Some((2, 2))));
+    assert_eq!(r.get_value((0, 1)), Some(&Data::String("x".into())));
+    assert_eq!(r.get_value((1, 1)), Some(&Data::Empty));
+    assert_eq!(r.get_value((2, 1)), Some(&Data::String("y".into())), "the interior empty row must be as wide as the used rectangle");
+    assert_eq!(r.get_value((2, 2)), Some(&Data::String("z".into())));
+    assert_eq!(r.rows().count(), 3);
+}
+
 // C10 / R-FMT-SCAN
 
 #[test]
